@@ -70,7 +70,7 @@ MODELS = ["EOF", "ComplexEOF", "HilbertEOF", "ExtendedEOF", "SparsePCA", "POP", 
 # solved by the exact solver (n_modes > 80 % of the rank on small data), not by the randomized one of the default setting
 MODELS += ["MCA_allpc", "CPCCA_allpc", "RDA_intpc", "CPCCARotator_allpc"]
 NO_SAMPLE_PERM = {"HilbertEOF", "ExtendedEOF", "POP", "OPA", "EOFBootstrapper", "OPA_wide", "ExtendedEOF_wide", "POP_wide"}
-CROSS = {"CPCCA", "MCA", "MCARotator", "MCA_allpc", "CPCCA_allpc", "RDA_intpc", "CPCCARotator_allpc", "MCA_wide", "CPCCA_wide"}
+CROSS = {"MCA_std", "CPCCA", "MCA", "MCARotator", "MCA_allpc", "CPCCA_allpc", "RDA_intpc", "CPCCARotator_allpc", "MCA_wide", "CPCCA_wide"}
 ITERATIVE = {"SparsePCA", "EOFRotator", "MCARotator", "CPCCARotator_allpc"}
 RAGGED_EXTRA = ["EOF_std"]  # on the ragged base the scale is an average over the sample dimensions too: EOF(standardize=True)
 SHALLOW = {"CPCCARotator_allpc"}  # explored one level less deep than the others (0.7 s per fit)
@@ -99,7 +99,16 @@ WIDE = "slow_wide"  # a 30 x (3 x 8) field with a slowly decaying spectrum: 24 f
 WIDE_MODELS = ["EOF", "OPA_wide", "ExtendedEOF_wide", "POP_wide", "MCA_wide", "CPCCA_wide"]
 
 
+UNITS = "geometric@units"  # the three latitude rows carry fields in very different units (factors 1, 1e9, 1e4): with
+# standardize=True nothing may depend on which of them share a container (Dataset variable / list item / one DataArray)
+UNITS_MODELS = ["EOF_std", "MCA_std"]
+
+
 def base_data(seed, spec, cplx, ragged=False):
+    if spec == UNITS:
+        x, y = base_data(seed, "geometric", cplx, ragged)
+        fac = xr.DataArray([1.0, 1e9, 1e4], dims="lat", coords={"lat": x.lat})
+        return (x * fac).rename(x.name), y
     if spec == WIDE:
         X = D.make_matrix(30, 24, "slow", 1.0, cplx, seed, salt=1)
         Y = D.make_matrix(30, 4, "geometric", 1.0, False, seed, salt=2)
@@ -215,6 +224,8 @@ def build(model, names):
         m = xe.single.EOF(n_modes=3, solver="full", **kw)
     elif model == "EOF_std":
         m = xe.single.EOF(n_modes=3, standardize=True, solver="full", **kw)
+    elif model == "MCA_std":
+        m = xe.cross.MCA(n_modes=2, standardize=True, use_pca=False, solver="full", **kw)
     elif model == "ComplexEOF":
         m = xe.single.ComplexEOF(n_modes=3, solver="full", **kw)
     elif model == "HilbertEOF":
@@ -492,6 +503,11 @@ def cases(tier, seed):
         for m in WIDE_MODELS:
             if applicable(m, n):
                 out.append(dict(node=n, model=m, spec=WIDE))
+    # fields in very different units, standardised: depth 1 (quick) / 2
+    for n in nodes(1 if tier == "quick" else 2):
+        for m in UNITS_MODELS:
+            if applicable(m, n):
+                out.append(dict(node=n, model=m, spec=UNITS))
     # degenerate spectrum: projector comparison, EOF only, depth 1 (quick) / 2
     for n in nodes(1 if tier == "quick" else 2):
         out.append(dict(node=n, model="EOF", spec="flat_pair"))
